@@ -184,7 +184,7 @@ pub fn build(p: P) -> Scenario<Arc<CS>> {
     };
     Scenario {
         name: p.name.to_string(),
-        opts: Opts { stale_reads: p.stale, stale_depth: 3, max_spurious: p.spurious, horizon: 20_000, log_ops: false, log_handler_ops: false, reduce: false, no_discipline: false, nest_value_t1: 0, post_points: true },
+        opts: Opts { stale_reads: p.stale, stale_depth: 3, max_spurious: p.spurious, horizon: 20_000, log_ops: false, log_handler_ops: false, reduce: false, no_discipline: false, nest_value_t1: 0, post_points: true, no_race_check: p.prop == "C08", start_points: false },
         signals: vec![libc::SIGUSR1],
         setup: Box::new(setup),
         threads,
